@@ -252,14 +252,15 @@ Fixpoint path_active (eH : list (nat * nat)) (Z : list nat) (anz : nat -> bool) 
       (if has_edge eH a m && has_edge eH b m then anz m else negb (mem m Z)) && path_active eH Z anz t
   | _ => true
   end.
-Definition valid_pathb (g : graph) (x y : nat) (Z : list nat) : bool :=
-  let RG := reach_tbl (nodes g) (edges g) in
-  let eH := drop_out x (edges g) in
-  let RH := reach_tbl (nodes g) eH in
+Definition valid_path_core (RG RH : nat -> list nat) (ns : list nat) (es : list (nat * nat)) (x y : nat) (Z : list nat) : bool :=
+  let eH := drop_out x es in
   let anz := fun v => existsb (fun z => (v =? z) || mem z (RH v)) Z in
   let nbrs := fun u => unionb Nat.eqb (succs eH u) (preds eH u) in
   negb (existsb (fun z => mem z (RG x)) Z) &&
-  negb (existsb (path_active eH Z anz) (simple_paths (S (length (nodes g))) nbrs [] x y)).
+  negb (existsb (path_active eH Z anz) (simple_paths (S (length ns)) nbrs [] x y)).
+Definition valid_pathb (g : graph) (x y : nat) (Z : list nat) : bool :=
+  valid_path_core (reach_tbl (nodes g) (edges g)) (reach_tbl (nodes g) (drop_out x (edges g)))
+                  (nodes g) (edges g) x y Z.
 
 (* ------------------------------------------------------------------ the 5-node universe *)
 (* nodes 0 (exposure), 1 (outcome), 2, 3, 4; arrow 0 -> 1 always present; each of the other 9 pairs is
